@@ -117,7 +117,7 @@ def _is_zero_value(e):
 def _increase(ctx, prog, inc):
     paths = H.success_paths(inc)
     ctx.floor("inc:success-paths", len(paths), 4)
-    agg = {"usd": [], "tokens": [], "coll": []}
+    agg = {"usd": [], "tokens": [], "coll": [], "pool": []}
     n = 0
     for p in paths:
         st, namer = _path_model(inc, p)
@@ -139,16 +139,28 @@ def _increase(ctx, prog, inc):
                 agg[key].append("stored-old = %s but open-interest delta = %s" % (change.show(), lin(arg).show()))
             else:
                 agg.setdefault(key + "_ok", set()).add(change.show())
-        # collateral
+        # collateral: position change vs delta applied to collateral_sum_pool (private helpers expanded / inlined alike)
         cs = st["collateral_amount"]
+        evs = H.events(inc, p)
+        eff = [e for e in H.pool_effects(inc, p) if e["pool"] == "collateral_sum"]
         if len(cs) != 1:
             agg["coll"].append("%d stores to collateral_amount on a success path" % len(cs))
+        elif len(eff) != 1:
+            agg["pool"].append("%d collateral_sum_pool applications on a success path" % len(eff))
         else:
-            change = H.lin_of(cs[0]["value"], lambda x: namer(x) or _pc_namer(x)).add(H.Lin({"collateral_amount@old": 1}), -1)
-            if change != H.Lin({"process_collateral.0": 1}):
-                agg["coll"].append("stored-old = %s (expected +process_collateral.0)" % change.show())
+            change = H.lin_of(H.inline_helper_values(cs[0]["value"], evs), namer).add(H.Lin({"collateral_amount@old": 1}), -1)
+            pd = H.lin_of(eff[0]["amount"], namer)
+            if not change or "collateral_amount@old" in change:
+                agg["coll"].append("stored-old = %s" % change.show())
+            elif change != pd:
+                agg["pool"].append("collateral_sum delta %s != change of the position's collateral %s" % (pd.show()[:160], change.show()[:160]))
             else:
-                agg.setdefault("coll_ok", set()).add(change.show())
+                agg.setdefault("coll_ok", set()).add(change.show()[:200])
+            recv = str(eff[0].get("recv"))
+            if not re.match(r"^PerpMarketMut::collateral_sum_pool_mut\(PositionMut::market_mut\(self\.position\), Position::is_long\(self\.position\)\)\?$", recv):
+                agg["pool"].append("pool = %s" % recv[:120])
+            if str(eff[0]["side"]) != "Position::is_collateral_token_long(self.position)":
+                agg["pool"].append("side = %s" % eff[0]["side"])
         n += 1
     unc = H.uncovered_stores(inc, paths, r"PositionStateMut::(size_in_usd|size_in_tokens|collateral_amount)_mut\(self\.position\)$")
     if unc:
@@ -160,40 +172,11 @@ def _increase(ctx, prog, inc):
            "on %d success paths: size_in_tokens stored - old == update_open_interest arg 2 == %s%s" % (
                n, sorted(agg.get("tokens_ok", [])), "; MISMATCH: %s" % agg["tokens"][:2] if agg["tokens"] else ""), where=inc.where())
     ctx.ob("collateral-delta:increase:position", not agg["coll"] and n > 0,
-           "on %d success paths: collateral_amount stored - old == %s%s" % (
-               n, sorted(agg.get("coll_ok", [])), "; MISMATCH: %s" % agg["coll"][:2] if agg["coll"] else ""), where=inc.where())
-    # process_collateral: pool delta == returned delta
-    pc = ctx.fn(r"IncreasePosition::<P, DECIMALS>::process_collateral")
-    if pc is not None:
-        ps = H.success_paths(pc)
-        bad = []
-        okv = set()
-        for p in ps:
-            ev = p["ev"]
-            calls = [c for c in H.path_calls(p, r"PoolExt::apply_delta_amount$")]
-            calls = [c for c in calls if re.search(r"collateral_sum_pool_mut\(", str(ev.call_args(c)[0]))]
-            if len(calls) != 1:
-                bad.append("%d collateral_sum_pool applications on a success path" % len(calls))
-                continue
-            a = ev.call_args(calls[0])
-            recv = str(a[0])
-            if not re.match(r"^PerpMarketMut::collateral_sum_pool_mut\(PositionMut::market_mut\(self\.position\), Position::is_long\(self\.position\)\)\?$", recv):
-                bad.append("pool = %s" % recv[:120])
-            if str(a[1]) != "Position::is_collateral_token_long(self.position)":
-                bad.append("side = %s" % a[1])
-            try:
-                ret0 = dict(dict(p["ret"].a[1])["0"].a[1])["0"]
-            except Exception:
-                bad.append("return shape")
-                continue
-            if H.lin_of(a[2]) != H.lin_of(ret0) or not H.lin_of(ret0):
-                bad.append("pool delta %s != returned delta %s" % (H.lin_of(a[2]).show(), H.lin_of(ret0).show()))
-            else:
-                okv.add(H.lin_of(ret0).show()[:160])
-        ctx.ob("collateral-delta:increase:pool", not bad and len(ps) > 0,
-               "process_collateral applies to collateral_sum_pool_mut(is_long)[is_collateral_token_long] exactly the delta it returns "
-               "(%d paths)%s" % (len(ps), "; MISMATCH %s" % bad[:2] if bad else ""), where=pc.where(), detail={"delta": sorted(okv)[:2]})
-        ctx.floor("collateral-delta:increase:paths", len(ps), 1)
+           "on %d success paths the position's collateral_amount is stored once, as old + a non-trivial delta: %s%s" % (
+               n, sorted(agg.get("coll_ok", []))[:2], "; MISMATCH: %s" % agg["coll"][:2] if agg["coll"] else ""), where=inc.where())
+    ctx.ob("collateral-delta:increase:pool", not agg["pool"] and not agg["coll"] and n > 0,
+           "on %d success paths collateral_sum_pool_mut(is_long)[is_collateral_token_long] gets exactly the change of the position's collateral "
+           "(same linear form; private helpers expanded)%s" % (n, "; MISMATCH %s" % sorted(set(agg["pool"]))[:2] if agg["pool"] else ""), where=inc.where())
     # zero usd delta -> zero token delta
     ge = ctx.fn(r"IncreasePosition::<P, DECIMALS>::get_execution_params")
     if ge is not None:
